@@ -175,7 +175,7 @@ func (nd *Node) Execute(m *Msg, faultKind, faultK int) *Exec {
 		acntSnd = hs
 		ex.HasSnd = true
 	}
-	if ShardOf(m.Rcv, nd.N) == nd.ID && len(m.Rcv) > 0 || m.Kind == KindControl && vmcommon.IsSystemAccountAddress(m.Rcv) {
+	if ShardOf(m.Rcv, nd.N) == nd.ID && len(m.Rcv) > 0 || m.Kind == KindControl && spec.IsSystemAccountShaped(m.Rcv) {
 		if hs != nil && bytes.Equal(m.Snd, m.Rcv) {
 			hd = hs
 		} else {
